@@ -10,6 +10,7 @@ from props import _ecdsa_common as E
 from props._ecdsa_common import ParCorr, bitlen
 
 # modules re-checked by `lake env leanchecker` in the thorough tier
+EXTRA_PROPS = ["Named", "NamedPrimes"]   # named-curve layer: n*G = infinity checked on the generated table, primality certificates, unconditional corollaries
 LEANCHECK = ["Props.C01", "Proofs.EcdsaNt", "Proofs.EcdsaGroup", "Proofs.EcdsaSign", "Proofs.EcdsaVerify",
              "Proofs.EcdsaRoundTrip", "Proofs.EcdsaEntry", "Proofs.EcdsaCodec", "Proofs.EcdsaKeys", "Proofs.EcdsaTruncate",
              "Proofs.EcdsaBits", "Proofs.EcdsaToy", "Proofs.EcdsaInstOrd", "Proofs.EcdsaInstCurve", "Proofs.EcdsaInstToy",
